@@ -36,12 +36,15 @@ def b01 (b : Bool) : String := if b then "1" else "0"
 def aggDump (a : AggRec) : String :=
   s!"{a.flowType}/{corrToken a.corr}/{a.start}/{a.end_}/{a.endReason}/{hexOrDash a.tcpState}/{natsToken a.stats}/{natsToken a.srcStats}/{natsToken a.dstStats}/{a.endSrc}/{a.endDst}/{natsToken a.thr}/{natsToken a.thrSrc}/{natsToken a.thrDst}/{b01 a.ready}/{a.retries}/{b01 a.corrFilled}"
 
-def parseRec (a : List String) : Option InRec :=
-  -- an optional trailing `p<n>` = the order in which the record lists its elements (a permutation seed):
-  -- the aggregation looks fields up by NAME, so the model's record - a structure - does not carry it
-  let a := match a.reverse with
-    | p :: rest => if p.startsWith "p" && (p.drop 1).toString.toNat?.isSome then rest.reverse else a
-    | [] => a
+/-- drop an optional trailing `p<n>` = the order in which the record(s) list their elements (a permutation
+    seed): the aggregation looks fields up by NAME, so the model's record - a structure - does not carry it -/
+def stripPerm (a : List String) : List String :=
+  match a.reverse with
+  | p :: rest => if p.startsWith "p" && (p.drop 1).toString.toNat?.isSome then rest.reverse else a
+  | [] => a
+
+/-- the eight arguments of one record -/
+def parseRecCore (a : List String) : Option InRec :=
   match a with
   | [k, ft, corr, st, en, reason, tcp, stats] => do
     let k ← k.toNat?
@@ -56,6 +59,24 @@ def parseRec (a : List String) : Option InRec :=
     else pure { key := k, flowType := ft, corr := c, start := st, end_ := en, endReason := reason, tcpState := tcp, stats := stats }
   | _ => none
 
+def parseRec (a : List String) : Option InRec := parseRecCore (stripPerm a)
+
+/-- split a token list at the standalone token `sep` -/
+def splitTokens (sep : String) (a : List String) : List (List String) :=
+  let (cur, done) := a.foldl (fun (acc : List String × List (List String)) t =>
+    if t == sep then ([], acc.1.reverse :: acc.2) else (t :: acc.1, acc.2)) ([], [])
+  (cur.reverse :: done).reverse
+
+/-- five-tuples 4 and 5 of the engine's key table are IPv6 ones (harness: aggKeys) -/
+def keyIsV6 (k : Nat) : Bool := k == 4 || k == 5
+
+/-- `agg msg <rec_1> + ... + <rec_k> [p<n>]`: the records of ONE data set as the collector decodes it (one
+    template: one element order, one address family). For the aggregation a message is its records in order. -/
+def parseMsg (a : List String) : Option (List InRec) :=
+  match (splitTokens "+" (stripPerm a)).mapM parseRecCore with
+  | some (r :: rs) => if rs.all (fun x => keyIsV6 x.key == keyIsV6 r.key) then some (r :: rs) else none
+  | _ => none
+
 /-- engine "agg": see harness/cmd/harness/eng_agg.go -/
 def engAgg (s : Agg.State) (a : List String) : Agg.State × String :=
   match a with
@@ -66,6 +87,11 @@ def engAgg (s : Agg.State) (a : List String) : Agg.State × String :=
   | "rec" :: rest =>
     match parseRec rest with
     | some r => (ingest s r, "ok")
+    | none => (s, "bad-op")
+  | "msg" :: rest =>
+    -- AggregateMsgByFlowKey takes the records of the message one by one
+    match parseMsg rest with
+    | some rs => (rs.foldl ingest s, "ok")
     | none => (s, "bad-op")
   | ["adv", d] =>
     match d.toNat? with
@@ -112,6 +138,16 @@ def parseSnap (obs : List String) : Option C06.Snap :=
 def parseCbKeys (tok : String) : Option (List Nat) :=
   if tok == "-" then some [] else (tok.splitOn ";").mapM fun c => ((c.splitOn "=").head?).bind (·.toNat?)
 
+/-- the snapshot Spec.C06.checkRec asks for after a record for key `k` at `now` (a new flow is queued with
+    (now + a, now + i); an existing one keeps its active deadline and gets inactive := now + i). A message of
+    several records is judged record by record: all but the last are applied to the previous snapshot, the last
+    one is left to `checkRec`, which then demands exactly these deadlines of the other keys. -/
+def snapAfterRec (s : C06.Snap) (k now a i : Nat) : C06.Snap :=
+  match C06.findItem s.queue k with
+  | some _ => { s with queue := s.queue.map fun it => if it.key == k then { it with inactive := now + i } else it }
+  | none => { held := s.held ++ [k], nflows := s.nflows + 1,
+              queue := s.queue ++ [{ key := k, active := now + a, inactive := now + i, ok := true, ready := false, retries := 0 }] }
+
 /-- `chk agg <op> | <impl obs>`: the scheduling specification (Spec.C06) on the implementation's trace -/
 def chkAgg (t : C06.Tracker) (a : List String) : C06.Tracker × String :=
   let (op, obs) := splitBar a
@@ -121,6 +157,13 @@ def chkAgg (t : C06.Tracker) (a : List String) : C06.Tracker × String :=
   | "rec" :: k :: _ =>
     match obs, k.toNat? with
     | ["ok"], some k => ({ t with pending := .record k }, "holds")
+    | _, _ => (t, "fails record-refused")
+  | "msg" :: rest =>
+    match obs, (parseMsg rest).map (fun rs => rs.map (·.key)) with
+    | ["ok"], some ks =>
+      match ks.reverse with
+      | k :: before => ({ t with last := before.reverse.foldl (fun s k' => snapAfterRec s k' t.now t.a t.i) t.last, pending := .record k }, "holds")
+      | [] => (t, "fails obs")
     | _, _ => (t, "fails record-refused")
   | ["scan", _, _] =>
     match obs with
@@ -173,6 +216,10 @@ def chkAggC (t : C07.Tracker) (a : List String) : C07.Tracker × String :=
   | "rec" :: rest =>
     match parseRec rest, obs with
     | some r, ["ok"] => (t.onRecord r, "holds")
+    | _, _ => (t, "fails record-refused")
+  | "msg" :: rest =>
+    match parseMsg rest, obs with
+    | some rs, ["ok"] => (rs.foldl (fun t r => t.onRecord r) t, "holds")
     | _, _ => (t, "fails record-refused")
   | ["scan", _, _] =>
     match obs with
@@ -239,6 +286,10 @@ def chkAggA (t : C05.Tracker) (a : List String) : C05.Tracker × String :=
   | "rec" :: rest =>
     match parseRec rest, obs with
     | some r, ["ok"] => (t.add r.key (.record r), "holds")
+    | _, _ => (t, "fails record-refused")
+  | "msg" :: rest =>
+    match parseMsg rest, obs with
+    | some rs, ["ok"] => (rs.foldl (fun t r => t.add r.key (.record r)) t, "holds")
     | _, _ => (t, "fails record-refused")
   | ["scan", _, reset] =>
     match obs with
